@@ -20,6 +20,11 @@ type Val struct {
 	Untyped bool // untyped numeric constant
 	Tuple   []*Val
 	Closure *ast.FuncLit
+	// SA, when non-empty, is the form of a Boolean specification term to use
+	// when the term is ASSUMED rather than proved: inside quantifiers the side
+	// facts of the body (postconditions of assumed library functions, type
+	// facts) are conjuncts there, hypotheses in S.  See forAssume.
+	SA string
 	// NaN, when non-empty, is the condition under which this floating-point
 	// value is a NaN (only a quotient 0/0 produces one); comparisons read it
 	NaN string
@@ -41,17 +46,17 @@ type Engine struct {
 	funcs map[string]*ast.FuncDecl // key -> decl
 	fobjs map[*types.Func]string   // func object -> key
 
-	ufs      map[string]string // name -> declaration
-	ufOrder  []string
-	axioms   []axiom // spec-level facts with the symbols they mention
-	specDefs map[string]string // spec func name -> define-fun text
-	specSig  map[string]*specSig
+	ufs       map[string]string // name -> declaration
+	ufOrder   []string
+	axioms    []axiom           // spec-level facts with the symbols they mention
+	specDefs  map[string]string // spec func name -> define-fun text
+	specSig   map[string]*specSig
 	specOrder []string
 
 	tagOf map[string]int // dynamic type name -> interface tag
 
-	modsets map[string]*modset
-	traceSigs map[string][]types.Type
+	modsets     map[string]*modset
+	traceSigs   map[string][]types.Type
 	scanningKey string
 
 	timeoutQuick int
@@ -94,45 +99,45 @@ type Obligation struct {
 
 // FuncCtx is the per-function verification context.
 type FuncCtx struct {
-	eng      *Engine
-	key      string
-	decl     *ast.FuncDecl
-	contract *Contract
-	decls    []string
-	nfresh   int
-	obls     []*Obligation
-	props    []string
-	loopOrd  map[ast.Node]int
-	entry    *State
-	results  []*types.Var // result variables (named or synthesised)
-	resNames map[string]int
-	paramAlias map[string]*types.Var // header name -> real var
-	paths    int
-	inlineDepth int
-	heapLocals map[*types.Var]bool
-	limit    string
-	lets     map[string]*Val
-	obligSeq map[string]int
-	coverSeq int
-	declared map[string]bool
-	mapOwned map[*types.Var]bool
-	params   map[*types.Var]bool
-	noVariant []string
-	curDecl  *ast.FuncDecl
-	specEnv  map[string]*Val
-	unfoldFacts []string
-	paramList []paramInfo
-	keySorts map[string]string
-	curCallArgs []ast.Expr
-	ghostStack []map[string]*Val
-	pendingWB []writeBack
-	observed map[string]bool
-	callOrd  map[*ast.CallExpr]int
-	inAtCall bool
-	loopEntry *State
+	eng          *Engine
+	key          string
+	decl         *ast.FuncDecl
+	contract     *Contract
+	decls        []string
+	nfresh       int
+	obls         []*Obligation
+	props        []string
+	loopOrd      map[ast.Node]int
+	entry        *State
+	results      []*types.Var // result variables (named or synthesised)
+	resNames     map[string]int
+	paramAlias   map[string]*types.Var // header name -> real var
+	paths        int
+	inlineDepth  int
+	heapLocals   map[*types.Var]bool
+	limit        string
+	lets         map[string]*Val
+	obligSeq     map[string]int
+	coverSeq     int
+	declared     map[string]bool
+	mapOwned     map[*types.Var]bool
+	params       map[*types.Var]bool
+	noVariant    []string
+	curDecl      *ast.FuncDecl
+	specEnv      map[string]*Val
+	unfoldFacts  []string
+	paramList    []paramInfo
+	keySorts     map[string]string
+	curCallArgs  []ast.Expr
+	ghostStack   []map[string]*Val
+	pendingWB    []writeBack
+	observed     map[string]bool
+	callOrd      map[*ast.CallExpr]int
+	inAtCall     bool
+	loopEntry    *State
 	coveredLoops map[int]bool
 	lastVariadic []*Val
-	noMerge  bool
+	noMerge      bool
 }
 
 type State struct {
@@ -601,4 +606,12 @@ func (c *FuncCtx) noteKeySort(k, sort string) {
 		c.keySorts = map[string]string{}
 	}
 	c.keySorts[k] = sort
+}
+
+// forAssume: the term to assume for a Boolean specification value.
+func (v *Val) forAssume() string {
+	if v.SA != "" {
+		return v.SA
+	}
+	return v.S
 }
